@@ -158,7 +158,7 @@ int main()
 	GlobalLogger::set_global_filename(std::string(dir) + "/global.log");
 	g_phase = 1;
 	GlobalLogger::is_loggable(Logger::Info);	// creates the logger and its thread
-	for (int i(0); i < 20000 && g_phase.load() == 1; ++i)
+	for (int i(0); i < 300000 && g_phase.load() == 1; ++i)
 		usleep(100);
 	g_phase = 0;
 
